@@ -27,12 +27,16 @@ def get_literal_expr(obj: object) -> Optional[str]:
     try:
         name = BUILTIN_TO_NAME[obj]
     except (KeyError, TypeError):
-        try:
-            return _get_complex_literal_expr(obj)
-        except _CannotBeRenderedError:
-            return None
+        name = None
 
-    return name
+    # dict lookup uses ``==``, so objects that are merely equal to a builtin (Decimal(1) == True) must be filtered out
+    if name is not None and NAME_TO_BUILTIN[name] is obj:
+        return name
+
+    try:
+        return _get_complex_literal_expr(obj)
+    except _CannotBeRenderedError:
+        return None
 
 
 def _provide_lit_expr(obj: object) -> str:
